@@ -1119,6 +1119,101 @@ def gate_region(g, repo=REPO):
     return region, hdrs, tests
 
 
+# ---------------------------------------------------------------------------
+# webdav._get_resources_by_hrefs: the two loops of multiget with their dict of lists
+
+def translate_resources_by_hrefs(repo=REPO):
+    src = ast.parse(open(os.path.join(repo, "xandikos/webdav.py"), encoding="utf-8").read())
+    fn = next((n for n in src.body if isinstance(n, ast.FunctionDef) and n.name == "_get_resources_by_hrefs"), None)
+    if fn is None or [a.arg for a in fn.args.args] != ["backend", "environ", "hrefs"]:
+        raise Untranslatable("_get_resources_by_hrefs not found / signature changed")
+    # backend.get_resources(paths) is `for relpath in relpaths: yield relpath, self.get_resource(relpath)` and the
+    # xandikos backend does not override it
+    be = next((n for n in src.body if isinstance(n, ast.ClassDef) and n.name == "Backend"), None)
+    gr = next((n for n in (be.body if be else []) if isinstance(n, ast.FunctionDef) and n.name == "get_resources"), None)
+    gr_body = [b for b in (gr.body if gr else []) if not (isinstance(b, ast.Expr) and isinstance(b.value, ast.Constant))]
+    if gr is None or len(gr_body) != 1 or ast.unparse(gr_body[0]) != "for relpath in relpaths:\n    yield (relpath, self.get_resource(relpath))":
+        raise Untranslatable("Backend.get_resources changed")
+    web = ast.parse(open(os.path.join(repo, "xandikos/web.py"), encoding="utf-8").read())
+    for n in ast.walk(web):
+        if isinstance(n, (ast.FunctionDef, ast.AsyncFunctionDef)) and n.name == "get_resources":
+            raise Untranslatable("web.py overrides get_resources")
+    body = [b for b in fn.body if not (isinstance(b, ast.Expr) and isinstance(b.value, ast.Constant))]
+    if len(body) != 3:
+        raise Untranslatable(f"{len(body)} top-level statements, 3 expected")
+    init, loop1, loop2 = body
+    if not ((isinstance(init, ast.AnnAssign) and isinstance(init.target, ast.Name) and isinstance(init.value, ast.Dict) and not init.value.keys)
+            or (isinstance(init, ast.Assign) and isinstance(init.value, ast.Dict) and not init.value.keys)):
+        raise Untranslatable("dict initialisation")
+    d = init.target.id if isinstance(init, ast.AnnAssign) else init.targets[0].id
+    # loop 1
+    if not (isinstance(loop1, ast.For) and isinstance(loop1.target, ast.Name) and ast.unparse(loop1.iter) == "dict.fromkeys(hrefs)"
+            and not loop1.orelse and len(loop1.body) == 2):
+        raise Untranslatable("first loop shape")
+    h = loop1.target.id
+    a, br = loop1.body
+    if not (isinstance(a, ast.Assign) and isinstance(a.targets[0], ast.Name) and ast.unparse(a.value) == f"href_to_path(environ, {h})"):
+        raise Untranslatable("path assignment")
+    pv = a.targets[0].id
+    if not (isinstance(br, ast.If) and isinstance(br.test, ast.Compare) and len(br.test.ops) == 1
+            and isinstance(br.test.left, ast.Name) and br.test.left.id == pv
+            and isinstance(br.test.comparators[0], ast.Constant) and br.test.comparators[0].value is None
+            and isinstance(br.test.ops[0], (ast.Is, ast.IsNot)) and len(br.body) == 1 and len(br.orelse) == 1):
+        raise Untranslatable("branch on the path")
+    some_branch, none_branch = (br.body[0], br.orelse[0]) if isinstance(br.test.ops[0], ast.IsNot) else (br.orelse[0], br.body[0])
+
+    def tr_branch(s, path_bound):
+        if isinstance(s, ast.Expr) and isinstance(s.value, ast.Call) and ast.unparse(s.value) == f"{d}.setdefault({pv}, []).append({h})" and path_bound:
+            return f"let {d} := Py.Dict.setdefaultAppend {d} {pv} {h}\n        resources_by_hrefs_loop1 script rest__ {d} out__"
+        if isinstance(s, ast.Expr) and isinstance(s.value, ast.Yield) and isinstance(s.value.value, ast.Tuple) and len(s.value.value.elts) == 2:
+            e0, e1 = s.value.value.elts
+            if isinstance(e0, ast.Name) and e0.id == h and isinstance(e1, ast.Constant) and e1.value is None:
+                return f"let out__ := out__ ++ [({h}, none)]\n        resources_by_hrefs_loop1 script rest__ {d} out__"
+        raise Untranslatable(f"first-loop branch: {ast.unparse(s)[:60]}")
+    sb, nb = tr_branch(some_branch, True), tr_branch(none_branch, False)
+    # loop 2
+    if not (isinstance(loop2, ast.For) and isinstance(loop2.target, ast.Tuple) and len(loop2.target.elts) == 2
+            and all(isinstance(t, ast.Name) for t in loop2.target.elts) and ast.unparse(loop2.iter) == f"backend.get_resources({d})"
+            and not loop2.orelse and len(loop2.body) == 1 and isinstance(loop2.body[0], ast.For)):
+        raise Untranslatable("second loop shape")
+    rp, rs = (t.id for t in loop2.target.elts)
+    inner = loop2.body[0]
+    if not (isinstance(inner.target, ast.Name) and ast.unparse(inner.iter) == f"{d}[{rp}]" and len(inner.body) == 1 and not inner.orelse
+            and isinstance(inner.body[0], ast.Expr) and isinstance(inner.body[0].value, ast.Yield)
+            and isinstance(inner.body[0].value.value, ast.Tuple) and len(inner.body[0].value.value.elts) == 2):
+        raise Untranslatable("inner loop shape")
+    ih = inner.target.id
+    y0, y1 = inner.body[0].value.value.elts
+    names = {ih: ih, rp: rp, rs: f"(lookup {rp})"}
+    if not (isinstance(y0, ast.Name) and isinstance(y1, ast.Name) and y0.id in (ih, rp) and y1.id == rs):
+        raise Untranslatable("yield of the second loop")
+    row = f"({names[y0.id]}, {names[y1.id]})"
+    return (
+        "/-- first loop of `webdav._get_resources_by_hrefs` (over `dict.fromkeys(hrefs)`) -/\n"
+        "def resources_by_hrefs_loop1 {ρ : Type} (script : String) : List String → Py.Dict (List String) → List (String × Option ρ) →\n"
+        "    Py.Dict (List String) × List (String × Option ρ)\n"
+        f"  | [], {d}, out__ => ({d}, out__)\n"
+        f"  | {h} :: rest__, {d}, out__ =>\n"
+        f"    let {pv} : Option String := (href_to_path script.toList {h}.toList).map String.ofList\n"
+        f"    (match {pv} with\n"
+        f"      | some {pv} =>\n        {sb}\n"
+        f"      | none =>\n        {nb})\n\n"
+        "/-- second loop: `backend.get_resources(paths)` yields `(relpath, get_resource(relpath))` per key -/\n"
+        "def resources_by_hrefs_loop2 {ρ : Type} (lookup : String → Option ρ) (" + d + " : Py.Dict (List String)) :\n"
+        "    List String → List (String × Option ρ) → Except Py.PyErr (List (String × Option ρ))\n"
+        "  | [], out__ => pure out__\n"
+        f"  | {rp} :: rest__, out__ =>\n"
+        f"    (match Py.Dict.get {d} {rp} with\n"
+        f"      | none => throw (Py.PyErr.raised \"KeyError\" {rp})\n"
+        f"      | some hs__ => resources_by_hrefs_loop2 lookup {d} rest__ (out__ ++ hs__.map fun {ih} => {row}))\n\n"
+        "/-- translated from `xandikos/webdav.py::_get_resources_by_hrefs`; `script` is `environ[\"SCRIPT_NAME\"]`,\n"
+        "    `lookup` is `backend.get_resource` -/\n"
+        "def resources_by_hrefs {ρ : Type} (lookup : String → Option ρ) (script : String) (hrefs : List String) :\n"
+        "    Except Py.PyErr (List (String × Option ρ)) :=\n"
+        f"  let ({d}, out__) := resources_by_hrefs_loop1 script (Py.Dict.fromkeys hrefs) [] []\n"
+        f"  resources_by_hrefs_loop2 lookup {d} ({d}.map Prod.fst) out__\n")
+
+
 SCAN_SPECS = [
     dict(module="Unescape", file="xandikos/icalendar.py", func="_unescape_text", lean="unescape_text",
          params=[("text", "str"), ("split", "bool")], returns="strlist",
@@ -1254,6 +1349,10 @@ def generate(repo=REPO, out_dir=GEN_DIR):
         mods["IterChanges"] = [({"func": "GitStore.iter_changes"}, translate_iter_changes(repo), None)]
     except (Untranslatable, SyntaxError, KeyError, IndexError, AttributeError, StopIteration) as e:
         mods["IterChanges"] = [({"func": "GitStore.iter_changes"}, None, f"{type(e).__name__}: {e}")]
+    try:
+        mods["Multiget"] = [({"func": "_get_resources_by_hrefs"}, translate_resources_by_hrefs(repo), None)]
+    except (Untranslatable, SyntaxError, KeyError, IndexError, AttributeError, StopIteration) as e:
+        mods["Multiget"] = [({"func": "_get_resources_by_hrefs"}, None, f"{type(e).__name__}: {e}")]
     mods["Gates"] = []
     for g in GATES:
         try:
@@ -1266,6 +1365,8 @@ def generate(repo=REPO, out_dir=GEN_DIR):
         hdr = HEADER
         if mod == "Gates":
             hdr = HEADER.replace("import Xandikos.Py.Dict\n", "import Xandikos.Py.Dict\nimport Xandikos.Generated.Etag\n")
+        if mod == "Multiget":
+            hdr = HEADER.replace("import Xandikos.Py.Dict\n", "import Xandikos.Py.Dict\nimport Xandikos.Generated.Href\n")
         text = hdr + "\n".join(t for s, t, err in items if t)
         if mod == "Collation":
             try:
